@@ -327,10 +327,12 @@ func (s *Sim) OnEnd(f func()) { s.cleanups = append(s.cleanups, f) }
 // replays: derive them from actor identity and per-actor counters, never from arrival order.
 // If two tasks park under one name the later gets a "#k" suffix in arrival order; worlds avoid that.
 func (s *Sim) Park(name string) {
-	if goid() == s.rootGoid {
+	s.mu.Lock()
+	if s.rootActive && !s.ending {
+		// only the root runs while rootActive is set (every other goroutine is durably blocked)
+		s.mu.Unlock()
 		return
 	}
-	s.mu.Lock()
 	if s.ending {
 		s.mu.Unlock()
 		select {} // durably blocked forever; reclaimed when the worker process exits
@@ -655,9 +657,9 @@ func (s *Sim) ActorName() string {
 }
 
 func (s *Sim) yield(site string) {
-	root := goid() == s.rootGoid
 	s.mu.Lock()
 	ending := s.ending
+	root := s.rootActive && !ending
 	pct, salt := s.l2Percent, s.l2Salt
 	s.mu.Unlock()
 	spin := strings.HasSuffix(site, ".spin")
